@@ -272,18 +272,30 @@ func (p *rtpPeer) publish(id string, cd rtpCodec) (*webrtc.PeerConnection, *webr
 	}
 }
 
-// goodPayload is a well-formed start of a key frame for the codec.
-func goodPayload(cd rtpCodec, n int) []byte {
+// goodPayload is a well-formed one-packet frame for the codec: a key frame or a delta frame.
+func goodPayload(cd rtpCodec, n int, key bool) []byte {
 	var b []byte
 	switch cd.fam {
 	case 0:
 		b = []byte{0x90, 0x80, byte(n) & 0x7F, 0x00, 0x00, 0x00, 0x9d, 0x01, 0x2a, 0x40, 0x01, 0xf0, 0x00}
+		if !key {
+			b = []byte{0x90, 0x80, byte(n) & 0x7F, 0x01, 0x00, 0x00, 0x11, 0x22}
+		}
 	case 1:
 		b = []byte{0x8E | 0x02, byte(n) & 0x7F, 0x18, 0x01, 0x40, 0x00, 0xF0, 0x01, 0x04, 0x82, 0x49, 0x83, 0x42, 0x00}
+		if !key {
+			b = []byte{0xCC, byte(n) & 0x7F, 0x86, 0x00, 0x11}
+		}
 	case 2:
 		b = []byte{0x28, 0x02, 0x0A, 0x0B, 0x32, 0x10, 0x00, 0x00}
+		if !key {
+			b = []byte{0x10, 0x32, 0x30, 0x00, 0x00}
+		}
 	case 3:
 		b = []byte{0x78, 0x00, 0x04, 0x67, 0x42, 0xe0, 0x1f, 0x00, 0x02, 0x68, 0xce, 0x00, 0x05, 0x65, 0x88, 0x84, 0x00, 0x10}
+		if !key {
+			b = []byte{0x41, 0x9a, 0x24, 0x6c}
+		}
 	default:
 		b = []byte{0xfc, 0x01, 0x02, 0x03}
 	}
@@ -312,7 +324,7 @@ func hostilePayload(cd rtpCodec, r *rand.Rand, scratch []byte) ([]byte, string) 
 		b := descriptor(scratch[:0], r.IntN(5), r, true)
 		return b, "other-codec-descriptor"
 	default:
-		return goodPayload(cd, r.IntN(128)), "well-formed"
+		return goodPayload(cd, r.IntN(128), r.IntN(3) == 0), "well-formed"
 	}
 }
 
@@ -326,7 +338,7 @@ func hostileRTCP(ssrc uint32, r *rand.Rand) ([]rtcp.Packet, string) {
 	switch r.IntN(12) {
 	case 0:
 		var ns []rtcp.NackPair
-		for q := r.IntN(120); q >= 0; q-- {
+		for q := r.IntN(120) * r.IntN(2); q > 0; q-- {
 			ns = append(ns, rtcp.NackPair{PacketID: uint16(r.UintN(65536)), LostPackets: rtcp.PacketBitmap(r.UintN(65536))})
 		}
 		return []rtcp.Packet{&rtcp.TransportLayerNack{SenderSSRC: u32(), MediaSSRC: u32(), Nacks: ns}}, "nack"
@@ -334,7 +346,7 @@ func hostileRTCP(ssrc uint32, r *rand.Rand) ([]rtcp.Packet, string) {
 		return []rtcp.Packet{&rtcp.PictureLossIndication{SenderSSRC: u32(), MediaSSRC: u32()}}, "pli"
 	case 2:
 		var fs []rtcp.FIREntry
-		for q := r.IntN(20); q >= 0; q-- {
+		for q := r.IntN(20) * r.IntN(3); q > 0; q-- {
 			fs = append(fs, rtcp.FIREntry{SSRC: u32(), SequenceNumber: uint8(r.UintN(256))})
 		}
 		return []rtcp.Packet{&rtcp.FullIntraRequest{SenderSSRC: u32(), MediaSSRC: u32(), FIR: fs}}, "fir"
@@ -347,7 +359,7 @@ func hostileRTCP(ssrc uint32, r *rand.Rand) ([]rtcp.Packet, string) {
 		return []rtcp.Packet{&rtcp.ReceiverEstimatedMaximumBitrate{SenderSSRC: u32(), Bitrate: br, SSRCs: ss}}, "remb"
 	case 4:
 		var rs []rtcp.ReceptionReport
-		for q := r.IntN(31); q >= 0; q-- {
+		for q := r.IntN(31) * r.IntN(3); q > 0; q-- {
 			rs = append(rs, rtcp.ReceptionReport{SSRC: u32(), FractionLost: uint8(r.UintN(256)), TotalLost: uint32(r.UintN(1 << 24)), LastSequenceNumber: uint32(r.Uint64()), Jitter: uint32(r.Uint64()), LastSenderReport: uint32(r.Uint64()), Delay: uint32(r.Uint64())})
 		}
 		return []rtcp.Packet{&rtcp.ReceiverReport{SSRC: u32(), Reports: rs}}, "rr"
@@ -356,6 +368,9 @@ func hostileRTCP(ssrc uint32, r *rand.Rand) ([]rtcp.Packet, string) {
 	case 6:
 		return []rtcp.Packet{&rtcp.SourceDescription{Chunks: []rtcp.SourceDescriptionChunk{{Source: u32(), Items: []rtcp.SourceDescriptionItem{{Type: rtcp.SDESCNAME, Text: strings.Repeat("c", r.IntN(255))}, {Type: rtcp.SDESType(r.UintN(9)), Text: "x"}}}}}}, "sdes"
 	case 7:
+		if r.IntN(3) == 0 {
+			return []rtcp.Packet{&rtcp.Goodbye{}, &rtcp.SourceDescription{}}, "bye-empty"
+		}
 		return []rtcp.Packet{&rtcp.Goodbye{Sources: []uint32{u32(), u32()}, Reason: "bye"}}, "bye"
 	case 8:
 		return []rtcp.Packet{&rtcp.TransportLayerCC{SenderSSRC: u32(), MediaSSRC: u32(), BaseSequenceNumber: uint16(r.UintN(65536)), PacketStatusCount: 0, ReferenceTime: uint32(r.UintN(1 << 24)), FbPktCount: uint8(r.UintN(256))}}, "twcc"
@@ -437,9 +452,9 @@ func (w *world) rtpSession(i int, api *webrtc.API, packets int) {
 		step = 960
 	}
 	send := func(payload []byte, class string, games bool) {
-		h := rtp.Header{Version: 2, SequenceNumber: seq, Timestamp: ts, Marker: r.IntN(3) == 0}
+		h := rtp.Header{Version: 2, SequenceNumber: seq, Timestamp: ts, Marker: !games || r.IntN(3) == 0}
 		seq++
-		if r.IntN(3) == 0 {
+		if !games || r.IntN(3) == 0 {
 			ts += step
 		}
 		if games {
@@ -480,7 +495,8 @@ func (w *world) rtpSession(i int, api *webrtc.API, packets int) {
 	// well-formed start so that the server creates the track and offers it to the subscribers
 	deadline := time.Now().Add(30 * time.Second)
 	for n := 0; sp.downPackets.Load() == 0 || wp.downPackets.Load() == 0; n++ {
-		send(goodPayload(cd, n), "well-formed", false)
+		// every third session starts in the middle of a stream: delta frames before the first key frame
+		send(goodPayload(cd, n, !(i%3 == 1 && n < 12)), "well-formed", false)
 		time.Sleep(10 * time.Millisecond)
 		if time.Now().After(deadline) {
 			fail("no packet was forwarded to the subscribers within the watchdog")
